@@ -131,19 +131,27 @@ def Meta.wfB (m : Meta) : Bool :=
   (match m.shape with | none => true | some s => decide (s.length = m.ids.length)) &&
   decide m.ids.Nodup
 
+/-- `xs[ids.index(r)]` — how the code finds "the entry of rank `r`" (`Tensor.getFormat`,
+    `old_rank_ids.index(rank_id)` in swizzle): the first position whose id equals `r` -/
+def lookD {α : Type} (ids : List RId) (xs : List α) (r : RId) (dflt : α) : α :=
+  match ids, xs with
+  | i :: is, x :: xs => if i = r then x else lookD is xs r dflt
+  | _, _ => dflt
+
 /-- `Tensor.getFormat(rank_id)`: `self.ranks[rank_ids.index(rank_id)].getFormat()` -/
-def Meta.getFmt (m : Meta) (r : RId) : Fmt := m.fmts.getD (m.ids.idxOf r) .C
+def Meta.getFmt (m : Meta) (r : RId) : Fmt := lookD m.ids m.fmts r .C
 
 /-- "Maintain the formats for untouched rank ids, compress everything else" (tensor.py:1606-1610) -/
 def Meta.fmtOrC (m : Meta) (r : RId) : Fmt := if r ∈ m.ids then m.getFmt r else .C
 
 /-! ### split (`_splitGeneric`) -/
 
+/-- `rank_ids[depth] = f"{id}.1"; rank_ids.insert(depth + 1, f"{id}.0")` -/
 def splitIds (k : Nat) (s : String) (ids : List RId) : List RId :=
-  (ids.set k (.one (s ++ ".1"))).insertIdx (k + 1) (.one (s ++ ".0"))
+  ids.take k ++ [.one (s ++ ".1"), .one (s ++ ".0")] ++ ids.drop (k + 1)
 
-/-- `shape.insert(depth + 1, shape[depth])` -/
-def dupAt {α : Type} [Inhabited α] (k : Nat) (l : List α) : List α := l.insertIdx (k + 1) (l.getD k default)
+/-- `shape.insert(depth + 1, shape[depth])`: entry `k` is duplicated -/
+def dupAt {α : Type} (k : Nat) (l : List α) : List α := l.take (k + 1) ++ l.drop k
 
 def mSplit (k : Nat) (m : Meta) : Option Meta :=
   match m.ids[k]? with
@@ -177,26 +185,27 @@ def swizLen (ids order : List RId) : Nat :=
 def mSwizzle (order : List RId) (m : Meta) : Meta :=
   if m.ids = order then m            -- `copied = copy.deepcopy(self)`; only the name changes
   else
-    let guide := order.map (fun r => m.ids.idxOf r)
     let n := swizLen m.ids order
     { ids := order
-      shape := m.shape.map (fun s => (guide.take n).map (fun g => s.getD g default) ++ s.drop n)
+      -- `[old_shape[guide[i]] for i in range(swiz_len)] + old_shape[swiz_len:]`,
+      -- `guide[i] = old_rank_ids.index(rank_ids[i])`
+      shape := m.shape.map (fun s => (order.take n).map (fun r => lookD m.ids s r default) ++ s.drop n)
       dflt := m.dflt
       fmts := order.map (fun _ => Fmt.C)     -- `Tensor.fromFiber(**kwargs)`: fresh ranks
-      mutable := false }                          -- … and `setMutable(False)`
+      mutable := false }                      -- … and `setMutable(False)`
 
 /-- documented: the requested order; shape, formats permuted alike; default, mutability kept -/
 def sSwizzle (order : List RId) (m : Meta) : Meta :=
   { ids := order
-    shape := m.shape.map (fun s => order.map (fun r => s.getD (m.ids.idxOf r) default))
+    shape := m.shape.map (fun s => order.map (fun r => lookD m.ids s r default))
     dflt := m.dflt
     fmts := order.map (fun r => m.getFmt r)
     mutable := m.mutable }
 
 /-! ### swap -/
 
-def swapAt {α : Type} [Inhabited α] (k : Nat) (l : List α) : List α :=
-  (l.set k (l.getD (k + 1) default)).set (k + 1) (l.getD k default)
+def swapAt {α : Type} (k : Nat) (l : List α) : List α :=
+  l.take k ++ (l.drop (k + 1)).take 1 ++ (l.drop k).take 1 ++ l.drop (k + 2)
 
 /-- `emptyBranch`: every fiber of rank `k` is empty, the code then deep-copies the root instead of
     swapping (tensor.py:1550-1555); the copied fibers still carry the attributes of their old ranks,
@@ -279,9 +288,9 @@ def unflIds : Nat → Nat → List RId → Option (List RId)
   | 0, _, ids => some ids
   | l + 1, k, ids =>
     match ids[k]? with
-    | some (.many [a, b]) => unflIds l (k + 1) ((ids.set k (.one a)).insertIdx (k + 1) (.one b))
+    | some (.many [a, b]) => unflIds l (k + 1) (ids.take k ++ [.one a, .one b] ++ ids.drop (k + 1))
     | some (.many (a :: b :: c :: r)) =>
-      unflIds l (k + 1) ((ids.set k (.one a)).insertIdx (k + 1) (.many (b :: c :: r)))
+      unflIds l (k + 1) (ids.take k ++ [.one a, .many (b :: c :: r)] ++ ids.drop (k + 1))
     | _ => none
 
 /-- the loop at tensor.py:1830-1836 on the shape list -/
@@ -289,9 +298,9 @@ def unflShape : Nat → Nat → List Sx → Option (List Sx)
   | 0, _, s => some s
   | l + 1, k, s =>
     match s[k]? with
-    | some (.cons a (.cons b .nil)) => unflShape l (k + 1) ((s.set k a).insertIdx (k + 1) b)
+    | some (.cons a (.cons b .nil)) => unflShape l (k + 1) (s.take k ++ [a, b] ++ s.drop (k + 1))
     | some (.cons a (.cons b (.cons c r))) =>
-      unflShape l (k + 1) ((s.set k a).insertIdx (k + 1) (.cons b (.cons c r)))
+      unflShape l (k + 1) (s.take k ++ [a, .cons b (.cons c r)] ++ s.drop (k + 1))
     | _ => none
 
 /-- `rep` is what `self.getShape()` reports (authoritative *or estimated*): the code passes it on
